@@ -110,6 +110,9 @@ func c10Op(name, tok string) (run func(s stackage.Stack) string, model func(m *l
 	switch name {
 	case "Freeze": // the read-only flag goes up (mutators that come later are turned away) ...
 		return func(s stackage.Stack) string { s.SetReadOnly(true); return "" }, func(m *listModel) string { m.ro = true; return "" }
+	case "SetFIFO": // the one-way switch to first-in-first-out, thrown beside Pops that are under way: it takes effect at
+		// one moment between its call and its return, and every Pop answers for the mode in force when it takes effect
+		return func(s stackage.Stack) string { s.SetFIFO(true); return "" }, func(m *listModel) string { m.fifo = true; return "" }
 	case "Thaw": // ... and down again
 		return func(s stackage.Stack) string { s.SetReadOnly(false); return "" }, func(m *listModel) string { m.ro = false; return "" }
 	}
@@ -408,6 +411,9 @@ func c10Check(c *Ctx, sc c10Scenario, bound int, count bool) (execs int, complet
 			return
 		}
 		for _, w := range x.writes {
+			if w.Op == "SetFIFO" && w.What == "options" {
+				continue // (the mode switch is a setting, not content or lock bookkeeping: the statement does not put it under the lock)
+			}
 			c.Violation(fmt.Sprintf("unlocked-write:%s:%s:%s->%s", w.What, w.Op, w.From, w.To),
 				desc(fmt.Sprintf("%s changed (%s) outside the locked section, between %s and %s", w.Op, w.What, w.From, w.To)), rep, size+len(x.choices))
 		}
@@ -507,6 +513,13 @@ func c10Scenarios(c *Ctx) (out []c10Scenario, bounds []int) {
 		out = append(out, c10Scenario{InitLen: cf[0], FIFO: cf[1] == 1, Cap: cf[2], Progs: [][]string{{"Freeze", "Thaw"}, {"Push2"}}, Policy: true},
 			c10Scenario{InitLen: cf[0], FIFO: cf[1] == 1, Cap: cf[2], Progs: [][]string{{"Freeze"}, {"Push1"}, {"Thaw"}}})
 		bounds = append(bounds, -1, 2)
+		// the ordering mode switched while a Pop is under way
+		if cf[1] == 0 {
+			out = append(out, c10Scenario{InitLen: cf[0], Cap: cf[2], Progs: [][]string{{"Pop"}, {"SetFIFO", "Push1"}}},
+				c10Scenario{InitLen: cf[0], Cap: cf[2], Progs: [][]string{{"Pop", "Pop"}, {"SetFIFO"}, {"Push1"}}},
+				c10Scenario{InitLen: cf[0], Cap: cf[2], Progs: [][]string{{"Remove0", "Pop"}, {"SetFIFO", "Insert0"}}})
+			bounds = append(bounds, -1, 2, -1)
+		}
 		// user code that fails inside the critical section (the caller recovers): everybody else goes on
 		for _, b := range ops[:6] {
 			out = append(out, c10Scenario{InitLen: cf[0], FIFO: cf[1] == 1, Cap: cf[2], Progs: [][]string{{"Push2"}, {b}}, Policy: true, Reject: true, PolPanics: true})
